@@ -14,6 +14,7 @@ CONSTANTS
   MaxRep = 0
   HistLen = 20
   MaxSimStr = 48
+  Ends = {"past", "none", "future", "tpast", "tfuture"}
   Pick <- PickOne
 INVARIANTS EmitSim
 CHECK_DEADLOCK FALSE
